@@ -1,0 +1,6 @@
+//go:build verif
+
+package conv
+
+// MaxLevelHook exposes the nesting limit (verification harness hook).
+const MaxLevelHook = maxLevel
